@@ -12,7 +12,7 @@ transparent = the field itself; skipped fields not written, and (4) the Kani har
 The schema family IS the bound of the "programs" quantifier; it is printed into the evidence.
 Usage: gen.py [seed]  -> writes src/gen.rs and schemas.json
 """
-import json, random, sys
+import json, os, random, sys
 
 # ---- field type table: rust type, value generator, reference emitter, equality, max encoded length
 SCALARS = {
@@ -646,6 +646,20 @@ def td_harnesses(s, schemas):
         seen.add(key)
         doc = f"C09 (type-directed): layout {k}: widths={cls} presence={pres} frame={frame}" + (f" variant={v.name}" if v else "")
         out.append(td_fn(f"c09_l{k}", td, exp, s, doc))
+    # thorough tier: extra layouts drawn with VERIF_SEED (the driver regenerates this file in a private copy)
+    extra = int(os.environ.get("VERIF_EXTRA_LAYOUTS", "0") or 0)
+    seed0 = int(os.environ.get("VERIF_SEED", "0") or 0)
+    for j in range(extra):
+        rr = random.Random(seed0 * 1000003 + sum(map(ord, s.name)) * 101 + j)
+        cls, pres = "mix", "rand"
+        frame = rr.choice(["def", "def", "wide"]) if getattr(s, "skip_layouts", None) is None else "def"
+        v = rr.choice(s.variants) if s.kind == "enum" else None
+        td, exp = td_case(s, s, schemas, rr.randrange(1 << 30), cls, pres, frame, v)
+        key = tuple(td.bytes)
+        if key in seen:
+            continue
+        seen.add(key)
+        out.append(td_fn(f"c09_x{j}", td, exp, s, f"C09 (type-directed): extra layout {j} drawn with VERIF_SEED={seed0}: widths=mix presence=rand frame={frame}"))
     # negative cases
     if s.tag is not None:
         # wrong tag: `d8 xx` / `d9 xx xx` with a symbolic tag value different from the declared one
